@@ -10,7 +10,7 @@ from collections import Counter
 import asyncstdlib as A
 
 from .. import gen
-from ..loop import CTX, drive, Suspend, run_sync
+from ..loop import CTX, drive, Suspend, run_sync, run_finalizers
 from ..probes import Item, canon, VLock
 from ..tools import run_async_side
 
@@ -123,6 +123,13 @@ def cases(tier, seed, shard, nshards):
                             yield {"kind": "pending-read-close",
                                    "c07": {"kind": "conc_close", "flav": flav, "reborrow": reborrow, "close_at": close_at,
                                            "susp": susp, "via": via}}
+    kk = 0
+    for name in CLOSE_TOOLS:
+        for k in (0, 1, 2, 3):
+            kk += 1
+            if kk % nshards == shard:
+                yield {"kind": "close-tokens", "tool": name, "k": k, "hooks": "none"}
+                yield {"kind": "close-tokens", "tool": name, "k": k, "hooks": "driver"}
     sizes = [5000, 20000] if tier == "quick" else [5000, 20000, 70000, 150000]
     k = 0
     for n in sizes:
@@ -905,6 +912,107 @@ def run_large_sync(case, stats):
     return {"violations": viols, "evals": 1, "sigs": [("large", tool, n)]}
 
 
+CLOSE_TOOLS = ["compress", "islice", "islice_from_0", "map", "zip", "filter", "enumerate", "starmap", "takewhile", "pairwise",
+               "batched", "accumulate", "chain", "zip_longest", "merge", "dropwhile", "filterfalse", "cycle", "groupby",
+               "tee", "any_iter", "zip_strict", "chain_from_iterable"]
+
+
+def run_close_tokens(case, stats):
+    """A tool is left early (aclose after k items) over class-based sources whose OWN ``aclose`` suspends: every
+    such clean-up awaitable runs under the loop - its token reaches the loop, it is resumed with the loop's reply and
+    completes before the tool's ``aclose()`` returns; none is started and then killed by a garbage-collected helper."""
+    import gc
+    import sys
+    _ensure_monitor(stats)
+    CTX.reset()
+    tool, k = case["tool"], case["k"]
+    events = []
+
+    class Src:
+        def __init__(self, name):
+            self.name, self.i, self.started, self.finished, self.aborted = name, 0, 0, 0, 0
+
+        def __bool__(self):
+            return False
+
+        def __aiter__(self):
+            return self
+
+        async def __anext__(self):
+            await Suspend(("src", self.name), 1)
+            self.i += 1
+            if self.i > 5:
+                raise StopAsyncIteration
+            return self.i
+
+        async def aclose(self):
+            self.started += 1
+            try:
+                await Suspend(("close", self.name), 1)
+            except GeneratorExit:
+                self.aborted += 1
+                raise
+            self.finished += 1
+
+    a, b = Src("A"), Src("B")
+    unraisable = []
+    old_hook = sys.unraisablehook
+    sys.unraisablehook = lambda u: unraisable.append(f"{type(u.exc_value).__name__}: {u.exc_value}")
+
+    async def main():
+        it = {"compress": lambda: A.compress(a, b), "islice": lambda: A.islice(a, 1, 5), "islice_from_0": lambda: A.islice(a, 4),
+              "map": lambda: A.map(lambda x, y: x, a, b), "zip": lambda: A.zip(a, b), "zip_strict": lambda: A.zip(a, b, strict=True),
+              "filter": lambda: A.filter(lambda x: True, a), "enumerate": lambda: A.enumerate(a),
+              "starmap": lambda: A.starmap(lambda *x: x, A.zip(a, b)), "takewhile": lambda: A.takewhile(lambda x: True, a),
+              "pairwise": lambda: A.pairwise(a), "batched": lambda: A.batched(a, 2), "accumulate": lambda: A.accumulate(a),
+              "chain": lambda: A.chain(a, b), "chain_from_iterable": lambda: A.chain.from_iterable([a, b]),
+              "zip_longest": lambda: A.zip_longest(a, b), "merge": lambda: A.merge(a, b),
+              "dropwhile": lambda: A.dropwhile(lambda x: False, a), "filterfalse": lambda: A.filterfalse(lambda x: False, a),
+              "cycle": lambda: A.cycle(a), "groupby": lambda: A.groupby(a), "tee": lambda: A.tee(a, 1)[0],
+              "any_iter": lambda: A.any_iter(a)}[tool]()
+        for _ in range(k):
+            await it.__anext__()
+        await it.aclose()
+        del it
+        events.append(("returned", a.started, a.finished, b.started, b.finished))
+
+    viols = []
+    # an event loop that does NOT finalise abandoned async generators on the library's behalf (asyncio and trio do,
+    # a minimal loop need not): whatever the library leaves to the garbage collector is closed by the interpreter
+    # itself, which cannot run an awaiting ``finally`` block
+    old_ag_hooks = sys.get_asyncgen_hooks()
+    if case.get("hooks") == "none":
+        sys.set_asyncgen_hooks(None, None)
+    try:
+        drive(main())
+        gc.collect()
+        if case.get("hooks") != "none":
+            run_finalizers()
+        gc.collect()
+    except BaseException as exc:  # noqa: BLE001
+        viols.append({"key": f"{tool}/early-close-raised", "msg": f"{tool} closed after {k} items: {type(exc).__name__}: {exc}"})
+    finally:
+        sys.unraisablehook = old_hook
+        sys.set_asyncgen_hooks(*old_ag_hooks)
+    head = f"{tool} left after {k} items over sources whose aclose suspends"
+    for src in (a, b):
+        if src.aborted:
+            viols.append({"key": f"{tool}/cleanup-awaitable-killed",
+                          "msg": f"{head}: {src.name}.aclose() was started {src.started}x and {src.aborted}x killed by a "
+                                 f"GeneratorExit at its own await instead of being resumed by the loop"})
+    if events and (events[0][1] != events[0][2] or events[0][3] != events[0][4]):
+        viols.append({"key": f"{tool}/cleanup-not-complete-when-aclose-returned",
+                      "msg": f"{head}: when aclose() returned, clean-ups started/finished were A {events[0][1]}/{events[0][2]}, "
+                             f"B {events[0][3]}/{events[0][4]}"})
+    if unraisable:
+        viols.append({"key": f"{tool}/unraisable-error-during-cleanup", "msg": f"{head}: {unraisable[0]}"})
+    if CTX.foreign:
+        viols.append({"key": f"{tool}/foreign-suspension", "msg": f"{head}: {CTX.foreign[0]}"})
+    stats["early_closes_over_sources_with_suspending_aclose"] += 1
+    _drain_asyncio(viols, f"{tool} early close")
+    return {"violations": viols, "evals": 1, "sigs": [("close-tokens", tool, k, case.get("hooks"))]}
+
+
 def run_pending_read_close(case, stats):
     """Two tasks share a borrowed / scoped iterator; one closes the handle (or leaves the scope) while the other's
     read is suspended inside the source.  Whatever the library does about it, it may only ever suspend on the
@@ -923,6 +1031,8 @@ def run_case(case, stats: Counter):
     kind = case["kind"]
     if kind == "pending-read-close":
         return run_pending_read_close(case, stats)
+    if kind == "close-tokens":
+        return run_close_tokens(case, stats)
     if kind == "fresh-interpreter":
         return run_fresh(stats)
     if kind == "namespace":
